@@ -124,6 +124,26 @@ CLAIMED = {
     note='Trusted: TLC; N=1 configurations.',
     technique='TLC trace validation against a functional Packet(b, ESI) specification with RFC oracle',
     design='4/C18'),
+ 'C11': dict(
+    category='model_checking',
+    text='Kernels.tla defines the four bulk operations element-wise over the spec field, the packed-bit layout and the frame '
+         'condition; MC_Kernels checks the algebra exhaustively on a small arena over GF(4). Every kernel variant this CPU '
+         'supports (AVX-512, AVX2, SSSE3, portable; called individually through the hook) and the four public dispatchers are '
+         'run on chained windows of one arena - all lengths 0..132 and up to 300, 6/64 alignments, all 256 scalars at 15 lengths - '
+         'and every call is validated by TLC as a step of the spec, incl. canary margins.',
+    note='Trusted: TLC, GF256 (C10). NEON is not compiled on this host. Forbidden scalars (0/1) only in the release profile.',
+    technique='TLC exhaustive small model + TLC trace validation of every kernel call against element-wise field semantics',
+    design='4/C11'),
+ 'C12': dict(
+    category='other',
+    text='Partial, behavioural: what a trace can show of memory safety. Kernel and codec workloads re-run in child processes under a '
+         'guard-page allocator (every allocation flush against a PROT_NONE page, end- and start-flush): a stray access kills the '
+         'child, which the trace spec rejects; frame condition with canaries; every paired borrow of the slab validated '
+         'disjoint/in-bounds by a TLC trace spec; table index bounds by C10. No claim about UB that neither faults nor changes a value.',
+    note='Not a memory-safety proof: reads inside alignment slack and aliasing UB are not observable behaviourally; deliberately not '
+         'replaced by Miri/ASan (different technique family).',
+    technique='TLC trace validation of workloads run under a guard-page allocator (crash = rejected trace) + slab borrow trace spec',
+    design='4/C12'),
 }
 
 NOT_YET = 'check not built yet in this round (work in progress; see DESIGN.md section 8 for the order of work)'
@@ -175,7 +195,7 @@ def main():
 
 
 NA = {}
-HOOK_COMMITS = ['7b4caa9', '4fb854c', '324160c']
+HOOK_COMMITS = ['7b4caa9', '4fb854c', '324160c', '780b1b4', 'dc24c31']
 FIX_COMMITS = ['e1f7f98', '497f892', 'c3da831', 'ae71c22']
 
 if __name__ == '__main__':
